@@ -75,6 +75,13 @@ func c01Judge(v *fsVisit) (e *davExpect, clause, detail string) {
 		if pr := v.Probe[p]; pr.Status == 200 && (pr.ETag != h.Get("ETag") || pr.LastMod != h.Get("Last-Modified")) {
 			return e, "unstable-entity-headers", fmt.Sprintf("ETag %s vs %s", pr.ETag, h.Get("ETag"))
 		}
+		if d := c01HeadVsGet(v); d != "" {
+			return e, "head-differs-from-get", d
+		}
+	case "cond-read":
+		if d := c01HeadVsGet(v); d != "" {
+			return e, "head-differs-from-get", d
+		}
 	case "options":
 		k := kindOf(v.State, p)
 		if !commaSet(v.Resp.Header.Values("DAV"))["1"] {
@@ -109,6 +116,26 @@ func c01Judge(v *fsVisit) (e *davExpect, clause, detail string) {
 		}
 	}
 	return e, "", ""
+}
+
+// c01HeadVsGet: a HEAD is answered like the GET with the same headers in the same state, minus the body
+// (status and every entity header), also when the request is conditional or asks for a range.
+func c01HeadVsGet(v *fsVisit) string {
+	if v.Req.Method != "HEAD" || v.Serve == nil {
+		return ""
+	}
+	q := v.Req
+	q.Method = "GET"
+	g := v.Serve(q)
+	if g.Status != v.Resp.Status {
+		return fmt.Sprintf("HEAD %d, GET %d", v.Resp.Status, g.Status)
+	}
+	for _, k := range []string{"Etag", "Last-Modified", "Content-Type", "Content-Length", "Accept-Ranges", "Content-Range"} {
+		if a, b := v.Resp.Header.Get(k), g.Header.Get(k); a != b {
+			return fmt.Sprintf("%s: HEAD %q, GET %q", k, a, b)
+		}
+	}
+	return ""
 }
 
 var c01LiveProps = []string{"resourcetype", "getcontentlength", "getlastmodified", "getcontenttype", "getetag"}
